@@ -49,7 +49,14 @@ def v_int(x):
     raise TraitError("not an int")
 
 
-VALIDATORS = {"ident": v_ident, "coerce": v_coerce, "reject": v_reject, "trait": v_int}
+def v_strict(x):
+    # NOT idempotent: accepts digit strings only and turns them into ints - it rejects its own results
+    if isinstance(x, str) and x.isdigit():
+        return int(x)
+    raise TraitError("not a digit string")
+
+
+VALIDATORS = {"ident": v_ident, "coerce": v_coerce, "reject": v_reject, "trait": v_int, "strict": v_strict}
 
 
 class Holder(HasTraits):
@@ -85,7 +92,7 @@ OP = st.one_of(
 
 def strategy(tier):
     return st.fixed_dictionaries({
-        "validator": st.sampled_from(["ident", "coerce", "reject", "reject", "trait"]),
+        "validator": st.sampled_from(["ident", "coerce", "reject", "reject", "trait", "strict"]),
         "init": st.lists(st.integers(0, 4), max_size=4),
         "ops": st.lists(OP, min_size=1, max_size=14),
     })
@@ -211,7 +218,7 @@ def run(case, ctx):
         holder.observe(lambda e: obs.append((set(e.removed), set(e.added))), "s.items")
     else:
         holder, obs = None, None
-        ts = TraitSet(case["init"], item_validator=val)
+        ts = TraitSet([str(i) for i in case["init"]] if vname == "strict" else case["init"], item_validator=val)
     ts.notifiers.append(rec)
     model = set(case["init"])
     interesting = False
@@ -239,7 +246,7 @@ def run(case, ctx):
             if c is ts:
                 ctx.fail("copy/equal", "%s returned the same object" % how)
             # still validates: an invalid item is rejected with TraitError, a valid one accepted
-            if vname == "reject" or (vname == "trait" and how == "deepcopy"):
+            if vname in ("reject", "strict") or (vname == "trait" and how == "deepcopy"):
                 # (a TraitSetObject that is pickled or shallow-copied on its own is documented to come back
                 #  disconnected from its trait; C14 covers pickling it together with its owner)
                 try:
@@ -257,7 +264,7 @@ def run(case, ctx):
                 c.discard(7)
             del events[:]
             n_before = len(events)
-            c.add(9)
+            c.add("9" if vname == "strict" else 9)
             c.discard(9)
             if events:
                 ctx.fail("copy/notifiers", "the copy (%s) carries the original's notifier" % how)
